@@ -6,7 +6,9 @@ by an op sequence (write, chmod, add file/dir/symlink, unknown file, remove,
 unversion, delete-on-disk, rename file/dir/into/out of a directory, symlink
 retarget, kind changes) up to a depth on top of each prior history (empty; one
 commit; two commits with a directory rename and path reuse; one commit with a
-pending merge), de-duplicated by canonical state; for each state every
+pending merge; one commit of sibling directories p, p-s, p.t, p0 whose names extend
+each other's with bytes below and above "/"), de-duplicated by canonical state
+(including versioned files and directories missing from disk); for each state every
 specific_files in {None} + subsets (<= 2) of all old and new path names + unknown
 files, and exclude in {None} + singletons.  Oracle by file id, written from the
 statement: an id whose (new, else old) path is selected and not excluded must
@@ -18,7 +20,7 @@ possibly selected id vacates or occupies) either is accepted; nothing else may
 appear.  An exception other than a documented refusal is a finding unless the
 selection splits changes that depend on each other (no well-formed tree to record).  Afterwards the tree's basis is the new revision, working files are
 untouched, selected ids report no change and unselected pending changes are still
-reported.  Faults: an InjectedFault at every k-th transport operation (reads and
+reported; after a full commit an immediate second commit must be pointless.  Faults: an InjectedFault at every k-th transport operation (reads and
 writes) of the commit for a core set of states, and exceptions from the
 start_commit / message callback / pre_commit stages: when commit raises, the tip
 and all_revision_ids() seen by a fresh open must equal their values before.
@@ -48,8 +50,12 @@ ALPHABET = [
     ("rename", "a", "c"), ("rename", "d/b", "b"), ("rename", "a", "d/a"), ("rename", "d", "e"), ("rename", "l", "k"),
     ("rename", "x", "a"), ("rename", "g", "d"),
     ("retarget", "l", "d/b"), ("tolink", "a", "x"), ("tofile", "l", b"was-link\n"), ("todir", "a"),
+    # versioned directories / files missing from disk, and siblings whose names share a prefix with them
+    ("rmdisk", "d"), ("rmdisk", "p"), ("rmdisk", "p/f"), ("rmdisk", "p-s"), ("rmdisk", "p0"),
+    ("remove", "p"), ("write", "p/f", b"f2\n"), ("write", "p-s/f", b"f2\n"), ("write", "p0/f", b"f2\n"),
+    ("rename", "p", "r"), ("rename", "p.t", "p"),
 ]
-HISTORIES = ("empty", "h1", "h2", "merge")
+HISTORIES = ("empty", "h1", "h2", "merge", "h3")
 
 REFUSALS = ("PathsNotVersionedError", "CannotCommitSelectedFileMerge", "PointlessCommit")
 
@@ -89,6 +95,12 @@ class World:
         self.store.restore({})
         b = mw.make_branch(self.store.transport("b"), "2a")
         base = W.base_spec()
+        if name == "h3":
+            # sibling directories whose names extend each other's with bytes sorting below and above "/"
+            base = {"a": mw.F(b"a-id", b"a1\n")}
+            for i, d in enumerate(("p", "p-s", "p.t", "p0")):
+                base[d] = mw.D(b"dir%d-id" % i)
+                base[d + "/f"] = mw.F(b"f%d-id" % i, b"f1\n")
         if name != "empty":
             mw.commit_spec(b, b"r1", [], base, timestamp=1e9)
         if name == "h2":
@@ -184,7 +196,7 @@ def _gen_work(chunk):
     return out
 
 
-def generate_states(ctx, hists, depth):
+def generate_states(ctx, hists, depth, h3_depth=2):
     """Layered BFS with de-duplication by canonical state; returns list of (hist, ops, depth)."""
     seen = {}
     layer = [(h, ()) for h in hists]
@@ -196,7 +208,9 @@ def generate_states(ctx, hists, depth):
         seen[(h, k)] = ops
     raw = 0
     for d in range(1, depth + 1):
-        cand = [(h, ops + (op,)) for h, ops in layer for op in ALPHABET]
+        # (ops on the p* sibling directories exist in history h3 only; h3 is explored to its own depth)
+        cand = [(h, ops + (op,)) for h, ops in layer for op in ALPHABET
+                if (h == "h3" or not str(op[1]).startswith("p")) and (h != "h3" or d <= h3_depth)]
         raw += len(cand)
         res = sum(par.pmap(_gen_work, cand, seed=ctx.seed), [])
         res.sort(key=lambda r: (r[0], len(r[1]), [ALPHABET.index(o) for o in r[1]]))
@@ -482,11 +496,25 @@ def check_case(acc, w, st, hist, ops, specific, exclude, snap, tdir, allow_point
     if mwt.dir_snapshot(w.co) != st["disk"]:
         acc.violation("after-commit:working-files-modified", case)
         return
+    orphans = set()
     for fid in sorted(set(work) | set(work2)):
         we, w2 = work.get(fid), work2.get(fid)
         missing = we is not None and we[2] is None
         c = cls.get(fid)
-        if missing and c == "sel":
+        # a missing entry below a missing directory that this commit unversioned cannot stay versioned
+        orphaned = False
+        if missing:
+            par, seen_p = we[0], set()
+            while par in work and par not in seen_p:
+                seen_p.add(par)
+                if work[par][2] is None and work2.get(par) is None:
+                    orphaned = True
+                    break
+                par = work[par][0]
+        if missing and orphaned:
+            orphans.add(fid)
+            ok = w2 is None or w2 == we
+        elif missing and c == "sel":
             ok = w2 is None                  # a selected missing file is unversioned by the commit
         elif missing and c == "amb":
             ok = w2 is None or w2 == we
@@ -496,6 +524,8 @@ def check_case(acc, w, st, hist, ops, specific, exclude, snap, tdir, allow_point
             acc.violation("after-commit:working-inventory-changed", dict(case, file_id=fid, before=we, after=w2))
             return
     for fid, c in sorted(cls.items()):
+        if fid in orphans:
+            continue
         if c == "sel" and fid in ch2:
             acc.violation("after-commit:selected-path-still-reported-changed", dict(case, file_id=fid, change=ch2[fid]))
             return
@@ -508,6 +538,21 @@ def check_case(acc, w, st, hist, ops, specific, exclude, snap, tdir, allow_point
             if b2 is None or a[1:] != b2[1:]:
                 acc.violation("after-commit:unselected-pending-change-altered", dict(case, file_id=fid, before=a, after=b2))
                 return
+    if specific is None and not exclude and allow_pointless:
+        # everything was selected: nothing the user did is left, so an immediate second commit is pointless
+        try:
+            wt = w.open()
+            wt.commit(message="again", rev_id=b"again", timestamp=TS + 1, timezone=0, committer=WHO,
+                      allow_pointless=False)
+        except Exception as e:  # noqa
+            if type(e).__name__ != "PointlessCommit":
+                acc.violation("after-commit:follow-up-commit:%s:%s" % (type(e).__name__, _frame(e)),
+                              dict(case, error=repr(e)[:200]))
+                return
+        else:
+            acc.violation("after-commit:follow-up-commit-not-pointless", dict(case, changes=sorted(map(repr, ch2))))
+            return
+        acc.count("follow_up_commits_pointless")
     acc.outcomes.add(("committed", len([f for f in differs if got.get(f) != basis.get(f)]), len(differs)))
     acc.count("committed")
 
@@ -657,11 +702,12 @@ def run(ctx):
     hists = HISTORIES
     depth = ctx.q(2, 3)
     full_depth = ctx.q(1, 2)
-    states, raw = generate_states(ctx, hists, depth)
+    states, raw = generate_states(ctx, hists, depth, h3_depth=ctx.q(1, 2))
     # (selected-file commits of a pending merge are all refused: one level of states is enough there)
     # quick tier: the second history (directory rename + path reuse) is explored one op deep only
     items = [(h, ops, len(ops) <= full_depth) for h, ops in states
-             if (h != "merge" or len(ops) <= 1) and (ctx.thorough or h != "h2" or len(ops) <= 1)]
+             if (h != "merge" or len(ops) <= 1) and (ctx.thorough or h != "h2" or len(ops) <= 1)
+             and (h != "h3" or len(ops) <= ctx.q(1, 2))]
     acc = par.merge(par.pmap(_case_work, items, seed=ctx.seed, chunks_per_job=8))
     # determinism audit: the first states twice
     a1 = _case_work(items[1:3])
@@ -706,6 +752,7 @@ def run(ctx):
         "fault_free_ops_total": facc.counters.get("fault_free_ops", 0),
         "faults_clean": facc.counters.get("faults_clean", 0),
         "faults_absorbed": facc.counters.get("faults_absorbed", 0),
+        "follow_up_commits_pointless": acc.counters.get("follow_up_commits_pointless", 0),
         "distinct_outcomes": len(total.outcomes),
         "samples": acc.samples[:3],
         "exhaustive": True,
